@@ -42,7 +42,21 @@ def _os_rename(src, dst, *a, **k):
     return fs.rename(src, dst)
 
 
+class _SimOSPath(_types.ModuleType):
+    def __getattr__(self, k):
+        return getattr(_real_os.path, k)
+
+
+def _path_getsize(path):
+    fs = _active_fs()
+    if fs is None:
+        return _real_os.path.getsize(path)
+    return fs.getsize(path)
+
+
 sim_os = _SimOSModule('os')
+sim_os.path = _SimOSPath('os.path')
+sim_os.path.getsize = _path_getsize
 sim_os.remove = _os_remove
 sim_os.unlink = _os_remove
 sim_os.rename = _os_rename
@@ -334,8 +348,7 @@ def make_osutils(fs):
     from s3transfer.utils import OSUtils, ReadFileChunk
 
     class SimOSUtils(OSUtils):
-        def get_file_size(self, filename):
-            return fs.getsize(filename)
+        # get_file_size is the library's own (os.path.getsize goes to SimFS)
 
         def open(self, filename, mode):
             return fs.open(filename, mode)
